@@ -590,4 +590,38 @@ theorem receipt_state (L q : Nat) (m : Msg) (pm : Plain L q m) (ttlR ttlD t t1 :
   obtain ⟨a5, _, _⟩ := run_any False L q m pm post _ a4 hcpost (fun g => g.elim)
   exact ⟨run_held L r.msgId t1 m post _ hheld (fun o ho => by rw [hd4]; exact hkeep o ho), a5.quiet.segq⟩
 
+/-! ### nothing is reported for a request while it is neither answered nor overdue (C14, history level) -/
+
+theorem run_quiet_while_calm (L q : Nat) (m : Msg) (pm : Plain L q m) (t : Nat) : ∀ (ops : List Op) (s : CState),
+    Inv L q m s → aget s.store q = some (t, m) → (∀ op ∈ ops, Clean L q op) → (∀ op ∈ ops, Calm q t s.ttlResp op) →
+    (runOps L s ops).2 = 0
+  | [], _, _, _, _, _ => rfl
+  | op :: ops, s, h, hl, hc, hcalm => by
+    obtain ⟨a, b, c, _⟩ := step_any False L q m pm s op h (hc op (by simp)) (fun g => g.elim)
+    have hl1 := step_alive L q m s op t hl (hc op (by simp)) (hcalm op (by simp))
+    have h0 : outcomes L (stepOp s op).2 = 0 := by
+      rcases c with ⟨_, e⟩ | ⟨_, e, _⟩
+      · exact e
+      · rw [e] at hl1; cases hl1
+    have := run_quiet_while_calm L q m pm t ops _ a hl1 (fun o ho => hc o (by simp [ho]))
+      (fun o ho => by rw [b]; exact hcalm o (by simp [ho]))
+    simp only [runOps, h0, this]
+
+theorem never_early (L q : Nat) (m : Msg) (pm : Plain L q m) (ttlR ttlD t : Nat) (pre post : List Op)
+    (hc : ∀ op ∈ pre ++ post, Clean L q op) (hcalm : ∀ op ∈ post, Calm q t ttlR op) :
+    (runOps L (initState ttlR ttlD) (pre ++ Op.put t m :: post)).2 = 0 := by
+  obtain ⟨a, b, c⟩ := run_any False L q m pm pre _ (init_inv L q m ttlR ttlD)
+    (fun o ho => hc o (by simp [ho])) (fun g => g.elim)
+  obtain ⟨hd, h0⟩ := c.dead (by rfl)
+  rw [runOps_append]
+  dsimp only
+  generalize (runOps L (initState ttlR ttlD) pre).1 = s1 at a b hd
+  obtain ⟨a2, b2, c2, d2⟩ := put_self False L q m pm s1 t a hd
+  have hrun : (runOps L s1 (Op.put t m :: post)).2 = countL L (put s1 t m).2 + (runOps L (put s1 t m).1 post).2 := by
+    simp [runOps, stepOp, outcomes]
+  rw [hrun, h0, c2]
+  have := run_quiet_while_calm L q m pm t post _ a2 b2 (fun o ho => hc o (by simp [ho]))
+    (fun o ho => by rw [d2, b]; exact hcalm o ho)
+  omega
+
 end SmppVerif.Lemmas.RcptHistory
